@@ -158,6 +158,7 @@ structure Scope where
   cScope : Str       -- C_name_scope
   fScope : Str       -- F_name_scope
   derived : Str      -- F_derived_name (classes)
+  isClass : Bool     -- the functions are class members
   w0 : Wrap
   deriving Repr, DecidableEq
 
@@ -313,8 +314,11 @@ def tableAdd (key : Str) (v : Str) : List (Str × List Str) → List (Str × Lis
   | [] => [(key, [v])]
   | (k, vs) :: rest => if k = key then (k, vs ++ [v]) :: rest else (k, vs) :: tableAdd key v rest
 
-/-- Key of the generic interface a Fortran wrapper is filed under (functions outside classes). -/
-def genericKey (sc : Scope) (r : Rec) : Str := sc.fScope ++ fGeneric sc r
+/-- Key of the generic interface a Fortran wrapper is filed under: constructors and class
+    members (`f_type_generic`) use `F_name_generic` alone, free functions
+    `F_name_scope + F_name_generic` (the scope is non-empty inside a flattened namespace). -/
+def genericKey (sc : Scope) (r : Rec) : Str :=
+  if sc.isClass then fGeneric sc r else sc.fScope ++ fGeneric sc r
 
 /-- The `f_function_generic` table after wrapping the records in order. -/
 def genericTable (sc : Scope) : List Rec → List (Str × List Str) → List (Str × List Str)
@@ -330,6 +334,7 @@ def tableGet (key : Str) : List (Str × List Str) → List Str
 
 inductive PathSeg where
   | ns (name : Str)
+  | nsf (name : Str)     -- namespace with option F_flatten_namespace
   | cls (name : Str)
   deriving Repr, DecidableEq
 
@@ -337,14 +342,19 @@ inductive PathSeg where
     `C_API_case` native, no `flatten_namespace`). -/
 def scopeOf (cPrefix : Str) (w0 : Wrap) : List PathSeg → Scope → Scope
   | [], sc => sc
-  | .ns n :: rest, sc => scopeOf cPrefix w0 rest { sc with cScope := sc.cScope ++ n ++ ['_'] }
+  | .ns n :: rest, sc =>
+    scopeOf cPrefix w0 rest { sc with cScope := sc.cScope ++ n ++ ['_'], isClass := false }
+  | .nsf n :: rest, sc =>
+    scopeOf cPrefix w0 rest
+      { sc with cScope := sc.cScope ++ n ++ ['_'], fScope := sc.fScope ++ lower n ++ ['_'],
+                isClass := false }
   | .cls n :: rest, sc =>
     scopeOf cPrefix w0 rest
       { sc with cScope := sc.cScope ++ n ++ ['_'], fScope := sc.fScope ++ lower n ++ ['_'],
-                derived := lower n }
+                derived := lower n, isClass := true }
 
 def rootScope (cPrefix : Str) (w0 : Wrap) : Scope :=
-  { cPrefix := cPrefix, cScope := [], fScope := [], derived := [], w0 := w0 }
+  { cPrefix := cPrefix, cScope := [], fScope := [], derived := [], isClass := false, w0 := w0 }
 
 /-- `LibraryNode.default_format`: `C_prefix = library.upper()[:3] + "_"` (ASCII). -/
 def toUpper (c : Char) : Char := if isLower c then Char.ofNat (c.toNat - 32) else c
